@@ -2,18 +2,20 @@
 harness/conn.py."""
 from harness import conn
 
-RULE = ("corpus first: replays of the repaired defects F-C10a/b/c (must pass) and the witnesses of the open findings F-C10d..j "
-        "(Link/ConnRefuted.v; must be rejected, reported with their signatures); exhaustive operation lists of length 3 (quick) / 4 "
-        "(thorough) starting with connect() over 14-18 operations (connect, reconnect ok/failing, disconnect, publish, blocked publish, "
-        "loop_write plain/partial+blocked/failing, CONNACK accepted/refused, EOF, unknown packet, server DISCONNECT, keepalive due, ping "
-        "overdue, on_connect publishing, on_disconnect reconnecting) x {direct-write, external loop} x {socket callbacks or not} x "
-        "{MQTT 3.1.1, 5 (thorough: 3.1)} x callback API 1/2; seeded random lists of 2..20 operations with per-send outcomes "
-        "(all, all-but-one-byte, would-block, zero, OSError), every broker input incl. protocol downgrade with failing reconnect, "
-        "server DISCONNECT in three encodings, recv error, PINGREQ/PINGRESP, and scripts of nested publish/subscribe/disconnect/"
-        "reconnect calls at all eight callback sites, 85% inside the hypotheses of the theorems. Every list runs on the real client "
-        "and on the extracted model: events and (_state, _sock, _registered_write, len(_out_packet), _ping_t, protocol) are compared "
-        "after every operation; the implementation trace is judged by the extracted checkers c10_*_ok. A rejected trace is attributed "
-        "to a finding when exactly one exclusion of the theorem is broken by the operation list, and reported as "
+RULE = ("corpus first: regression replays of the repaired defects F-C10a/b/c/e/f/g/j, F-C10d in external-loop mode, F-C10h on the "
+        "error paths (must pass; a rejected one is reported as C10-regression) and the witnesses of the open findings F-C10d (direct-write), "
+        "F-C10h (connect() on a live connection), F-C10i (Link/ConnRefuted.v; must be rejected, reported with their signatures); "
+        "exhaustive: connect() followed by every list of 3 operations (quick; thorough: also 4 over 11) out of 17-21 (connect, "
+        "reconnect ok/failing, disconnect plain/blocked/with reconnecting on_disconnect, publish plain/blocked, loop_write "
+        "plain/partial+blocked/failing, CONNACK accepted/refused, EOF, unknown packet, server DISCONNECT, keepalive due, ping overdue, "
+        "PINGREQ with failing reply, on_connect publishing, on_disconnect reconnecting) x {direct-write, external loop} x {socket "
+        "callbacks or not} x {MQTT 3.1.1, 5 (thorough: 3.1)} x callback API 1/2; seeded random lists of 2..20 operations with per-send "
+        "outcomes (all, all-but-one-byte, would-block, zero, OSError), every broker input incl. protocol downgrade with failing "
+        "reconnect, server DISCONNECT in three encodings, recv error, PINGREQ/PINGRESP, and scripts of nested publish/subscribe/"
+        "disconnect/reconnect calls at all eight callback sites, 85% inside the hypotheses of the theorems. Every list runs on the "
+        "real client and on the extracted model: events and (_state, _sock, _registered_write, len(_out_packet), _ping_t, protocol) "
+        "are compared after every operation; the implementation trace is judged by the extracted checkers c10_*_ok. A rejected trace "
+        "is attributed to a finding when exactly one exclusion of the theorem is broken by the operation list, and reported as "
         "C10-within-hypotheses otherwise. distinct = distinct (config, implementation trace); non-trivial = contains a connection end, "
         "on_connect or on_disconnect")
 EXTRACT_TAGS = ["conn"]
@@ -23,10 +25,11 @@ ASSUMPTIONS = [
     "no background thread (_thread is None): loop_start()/threaded use is C07's",
     "one broker packet per loop_read(): no QoS>0 messages stored (max_packets = 1); inbound packets arrive whole (C05 owns fragmentation)",
     "partial writes are of the shape all-but-the-last-byte (C06 owns general partial writes); keepalive timing is an input (C08 owns the clock)",
-    "exclusions of the partial theorems, each an open finding: D on_socket_open makes no API call; E no accepting CONNACK after disconnect(); "
-    "F no failing send while loop_read handles a packet (direct-write mode); G no reconnect() in the on_disconnect announcing a written "
-    "DISCONNECT; R on_socket_close/unregister_write call no disconnect()/reconnect(), register_write no reconnect(); C no reconnect() in "
-    "on_connect of a refused CONNACK; observations at the entry of on_socket_close/on_socket_unregister_write are not judged (F-C10h)",
+    "the result code returned by publish() is not compared when a callback called reconnect() during that publish() (per-message results: C01/C07)",
+    "exclusions of the partial theorems, each an open finding: D in direct-write mode on_socket_open makes no API call, in external-loop mode "
+    "it does not call reconnect(); R on_socket_close/unregister_write call no disconnect()/reconnect(), register_write no reconnect(); "
+    "observations at the entry of on_socket_close/on_socket_unregister_write are not judged while connect()/reconnect() replaces a "
+    "connection (F-C10h)",
 ]
 
 
